@@ -165,6 +165,12 @@ func runC18(c *harness.Ctx) {
 		hist = append(hist, k.kind)
 	}
 
+	// what happens after the interrupted start: 0-2 further complete starts of
+	// any kind, then a plain one (the same sequence for every crash point)
+	var post []startKind
+	for i, n := 0, t.Draw("npost", 3); i < n; i++ {
+		post = append(post, drawKind(c, "post"))
+	}
 	// ---- the next start is interrupted at every disk step
 	k := drawKind(c, "next")
 	snap := d.Snapshot()
@@ -218,10 +224,62 @@ func runC18(c *harness.Ctx) {
 						return
 					}
 				}
+				// life goes on: further complete starts, each of which must work
+				// and respect what is persisted
+				what := fmt.Sprintf("history %v; %v interrupted by %s at disk step %d of %d (%s %s, torn selector %d)", hist, k, fk.name, j, len(steps), steps[j-1].Op, steps[j-1].Path, ts)
+				okSet := map[ident]bool{}
+				for id := range acceptable {
+					okSet[id] = true
+				}
+				failed := false
+				for pi, pk := range post {
+					d.ResetPlan()
+					pr := start(c, nextName(), pk)
+					what += fmt.Sprintf("; then %v", pk)
+					if pr.crashed || pr.err != nil {
+						c.Violate("C18/identity-lost", "%s: this later start fails with %q; the bridge had identity %v; files now: %s", what, pr.err, *durable, describe(d))
+						failed = true
+						break
+					}
+					got := identOf(pr.sf)
+					switch pk.kind {
+					case "explicit":
+						if got.cert != explicitCert(pk) {
+							c.Violate("C18/explicit-identity-not-used", "%s: advertises %v", what, got)
+							failed = true
+						}
+						okSet = map[ident]bool{got: true}
+					case "iat":
+						certOK := false
+						for id := range okSet {
+							if id.cert == got.cert {
+								certOK = true
+							}
+						}
+						if !certOK || got.iat != fmt.Sprint(pk.iat) {
+							c.Violate("C18/identity-replaced", "%s: later start %d presents %v; acceptable were %v", what, pi, got, keys(okSet))
+							failed = true
+						}
+						okSet = map[ident]bool{got: true}
+					default:
+						if !okSet[got] {
+							c.Violate("C18/identity-replaced", "%s: later start %d presents %v; acceptable were %v", what, pi, got, keys(okSet))
+							failed = true
+						}
+						okSet = map[ident]bool{got: true}
+					}
+					if failed {
+						break
+					}
+				}
+				if failed {
+					return
+				}
 				// recovery: a plain start from whatever the disk holds now
 				d.ResetPlan()
 				rec := start(c, nextName(), startKind{kind: "plain"})
-				what := fmt.Sprintf("history %v; %v interrupted by %s at disk step %d of %d (%s %s, torn selector %d); files now: %s", hist, k, fk.name, j, len(steps), steps[j-1].Op, steps[j-1].Path, ts, describe(d))
+				what += "; files now: " + describe(d)
+				acceptable := okSet
 				if rec.crashed {
 					c.Violate("C18/harness", "recovery crashed")
 					return
@@ -240,6 +298,14 @@ func runC18(c *harness.Ctx) {
 	c.S.Count("crash_points", int64(evals))
 	c.Reached, c.Nontrivial = true, true
 	c.Feature("interrupted-" + k.kind)
+}
+
+func keys(m map[ident]bool) []ident {
+	var out []ident
+	for k := range m {
+		out = append(out, k)
+	}
+	return out
 }
 
 func tornClass(ts int) int {
